@@ -240,6 +240,28 @@ def run_one(ck, prog):
                                 z = True
             ck.ob("C15.4", "write_all|zero-write-is-error", z, fn=fname, detail="a writer that accepts 0 bytes must produce an error (not spin forever, not report success)")
 
+    # ---- C15.6 single-shot transfers happen only inside the retry loops --------------------------------------------------------------------
+    # A bare `write` may be short and a bare `read` may be interrupted: the provided helpers may reach the user's reader/writer
+    # only through the loops checked above (write_all; default_read_exact / default_read_to_end).
+    allowed = {IO + "Write::write": {IO + "Write::write_all"},
+               IO + "Read::read": {IO + "default_read_exact", IO + "default_read_to_end"}}
+    n_sites = 0
+    for p2, f2 in prog.fns.items():
+        if not p2.startswith(IO):
+            continue
+        for b in f2["blocks"]:
+            t = b["term"]
+            if t["k"] != "call" or b.get("cleanup"):
+                continue
+            callee = t.get("callee") or ""
+            if callee in allowed:
+                n_sites += 1
+                host = p2.split("::{closure")[0]
+                from ..engine.cfg import span_str
+                ck.ob("C15.6", f"single-shot-only-in-retry-loop|{p2.replace(IO, '')}|{callee.split('::')[-1]}", host in allowed[callee], fn=p2, site=span_str(t.get("sp")),
+                      detail=f"`{callee.split('::')[-2]}::{callee.split('::')[-1]}` is called directly from {p2.replace(IO, '')}: a short write loses the rest of the data (an interrupted call is surfaced) - deliver through write_all / the read loops")
+    ck.floor("C15.6", "single-shot call sites in the io helpers", n_sites, 2 if ck.config == "C" else 3)
+
     # ---- C15.5 write_fmt surfaces the stored error -----------------------------------------------------------------------------------
     wf = prog.fns.get(IO + "Write::write_fmt")
     if ck.anchor("C15.5", "write_fmt", wf):
